@@ -80,6 +80,15 @@ func (q *timedQueue) push(peerID peer.ID) {
 	q.Lock()
 	defer q.Unlock()
 
+	// the peer may still have a stale item from an earlier cool-down (it was removed from the pool
+	// and added again meanwhile); that item would release it before the new cool-down elapses
+	for i, it := range q.items {
+		if it.ID == peerID {
+			q.items = append(q.items[:i], q.items[i+1:]...)
+			break
+		}
+	}
+
 	q.items = append(q.items, item{
 		ID:        peerID,
 		createdAt: q.clock.Now(),
